@@ -128,6 +128,8 @@ def run(ctx):
                 conds.append(xh.Cond(f"iter_files flags=(submodules={f1},meson={f2},tomls={f3})", "C03.py", "_walk", {"flags": [f1, f2, f3], "carve": carve, "filenames": [0, 1, 9, 11, 16] if tier == "quick" else [0, 1, 3, 5, 9, 11, 12, 14, 16, 25]}, timeout=tmo, twin="_walk_reach"))
     for f1 in (False, True):
         for f2 in (False, True):
+            if tier == "quick" and f1 != f2:
+                continue
             for req, what in ((0, "root"), (1, "D"), (2, "D/pkg"), (4, "a file")):
                 conds.append(xh.Cond(f"annotate --recursive {what} flags=(submodules={f1},meson={f2})", "C03.py", "_rec", {"flags": [f1, f2, False], "requests": [req], "filenames": [0, 1, 9] if tier == "quick" else [0, 1, 9, 11, 16], "carve": carve}, timeout=tmo, twin="_rec_reach"))
     ctx.functions_encoded = [
